@@ -2,11 +2,16 @@
 from vf.driver import contract_units
 
 LEVEL = "proof"
-MODULES = ["contracts.c_access", "contracts.c_engine"]
+MODULES = ["contracts.c_access", "contracts.c_engine", "contracts.c_attributes"]
 EXPLANATION = ("The decision functions and the two choke points of the engine are proved against a "
                "spec of the grant relation written from the property text, for every policy store "
                "(uninterpreted dictionaries), identity, owner, object type and operation.")
 
 
+# the attribute handlers are proved for every protocol version x stored class under C15; here the
+# quick tier re-proves them on two slices (KMIP 1.4 and 2.0, first stored class), the thorough tier on all
+QUICK_SLICES = {'protocol-version': [4, 5], 'managed-class': [0]}
+
+
 def units(ctx):
-    return contract_units("C03", MODULES, ctx)
+    return contract_units("C03", MODULES, ctx, slices=QUICK_SLICES if ctx["tier"] == "quick" else None)
